@@ -108,7 +108,7 @@ def header_context(repo, workdir):
 def file_hashes(cx):
     out = {}
     for f in sorted(cx.ix.files):
-        if os.path.isabs(f) and os.path.exists(f) and '/prophy' in f:
+        if os.path.isabs(f) and os.path.exists(f) and ('/prophy' in f or f.endswith(('.ppf.cpp', '.ppf.hpp', '.cpp'))):
             out[f] = A.sha256_file(f)
     return out
 
